@@ -15,6 +15,7 @@ Require Import V.Proofs.AppenderInv2.
 Require Import V.Proofs.C02Proofs.
 Require Import V.Proofs.C02Quiescent.
 Require Import V.Proofs.AppenderMsgs.
+Require Import V.Proofs.C02OracleProofs.
 Open Scope Z_scope.
 
 (* The invariant holds in every configuration reachable by ANY number of publisher (and environment) threads
@@ -138,6 +139,16 @@ Theorem C02_quiescent_rotation : forall c, wf_cfg c -> forall s gh P,
   (forall g, sh_count s < g -> g_claims gh g = []).
 Proof. exact quiescent_rotation. Qed.
 Print Assumptions C02_quiescent_rotation.
+
+(* the oracle applied to the model's own results: its results part (everybody Done, every answer allowed, per-publisher
+   positions increasing) is true on every quiescent configuration the model can reach, for any number of threads.
+   PARTIAL: the log part of holds_C02 (walk of the rendered dump, reassembly, count/tails) is not proved true on every model
+   run - it needs the render/decode round trip of the word dump; it is evaluated on the model for every case instead. *)
+Theorem C02_oracle_results_partial : forall c, wf_cfg c -> forall s th gh n stop g offers,
+  reach c s th gh -> all_done th -> length offers = n ->
+  holds_results offers (map (fun t => thread_obs stop g t (th t)) (seq 0 n)) = true.
+Proof. exact oracle_results_model. Qed.
+Print Assumptions C02_oracle_results_partial.
 
 (* the known class is inhabited: publisher 0 parked between the tail read and its get_and_add while publisher 1
    fills three terms panics and the property's predicate fails on that run *)
